@@ -12,6 +12,8 @@ type decimalT = decimal.Decimal
 
 var zeroDec = decimal.Zero
 
+func decimalFromString(s string) (decimal.Decimal, error) { return decimal.NewFromString(s) }
+
 // ParseBalArgs reads the balance flags back from an argv fragment (the case
 // stores flags as argv so that shrinking can drop them one by one).
 func ParseBalArgs(args []string) (*BalFlags, error) {
